@@ -802,6 +802,33 @@ pub fn family(out: &mut Out, family: &str, tier: &Tier, rng: &mut Rng) {
                 };
                 mk(token_text(rng, 8, &[]), rng, g)
             }
+            "errors" if i % 10 == 9 => {
+                // errors whose parse span crosses line breaks (what a report displays depends on which
+                // end of the span it is anchored at): a consumed prefix spread over several lines, then
+                // a leaf that fails on a rejected character, a wrong token or the end of the text
+                let ks: Vec<u32> = (0..1 + rng.below(3)).map(|_| *rng.pick(&[0u32, 1, 2, 3])).collect();
+                let leaf = match rng.below(6) {
+                    0 => G::EndOfText,
+                    1 => G::SeqCount(vec![0]),
+                    2 => G::One(1),
+                    3 => G::Any(vec![0, 1]),
+                    4 => G::AnyIndex(vec![2, 1]),
+                    _ => G::Seq(vec![0, 1]),
+                };
+                let g = G::Both(Box::new(G::Seq(ks.clone())), Box::new(leaf));
+                let mut c = mk(String::new(), rng, g);
+                let le = *rng.pick(LINE_ENDINGS);
+                let brk = match le { LineEnding::Lf => "\n", LineEnding::Cr => "\r", LineEnding::CrLf => "\r\n" };
+                let mut text = String::new();
+                for (j, k) in ks.iter().enumerate() {
+                    if j > 0 { text.push_str(if rng.chance(2, 3) { brk } else { " " }); }
+                    text.push_str(kind_char(*k));
+                }
+                text.push_str(*rng.pick(&["", " ", brk, brk]));
+                text.push_str(*rng.pick(&["#", "", "d", ";", "a#", "#a", "a"]));
+                c.text = text; c.le = le; c.tab = 4; c.filter = Some(1);
+                c
+            }
             "errors" => {
                 let g = match rng.below(5) {
                     0 => gen_peg(rng, 2),
